@@ -18,6 +18,10 @@ pub const REMOTE_LEN: usize = 12;
 pub fn remote_body(seq: usize) -> bool {
     seq % 3 != 1
 }
+/// prune flag of remote seq s (must equal RemotePrunes in trace.cfg)
+pub fn remote_prune(seq: usize) -> bool {
+    seq % 5 == 4
+}
 
 fn pc_of(proc: &str, point: Option<&str>) -> &'static str {
     match (proc, point) {
@@ -106,9 +110,9 @@ pub fn run(args: &Args) {
     for run in 0..runs {
         let db = dir.join(format!("r{run}.sqlite"));
         remove_db(&db);
-        let mut bodies: BTreeMap<&str, Vec<bool>> = BTreeMap::new();
+        let mut bodies: BTreeMap<&str, Vec<(bool, bool)>> = BTreeMap::new();
         for r in AUTHORS.iter().skip(1).take(n_remotes) {
-            bodies.insert(r, (0..REMOTE_LEN).map(remote_body).collect());
+            bodies.insert(r, (0..REMOTE_LEN).map(|s| (remote_body(s), remote_prune(s))).collect());
         }
         let remote = build_remote_ops(&ids, &bodies);
         let net: String = (0..32)
@@ -129,9 +133,9 @@ pub fn run(args: &Args) {
     for run in 0..free {
         let db = dir.join(format!("free{run}.sqlite"));
         remove_db(&db);
-        let mut bodies: BTreeMap<&str, Vec<bool>> = BTreeMap::new();
+        let mut bodies: BTreeMap<&str, Vec<(bool, bool)>> = BTreeMap::new();
         for r in AUTHORS.iter().skip(1).take(2) {
-            bodies.insert(r, (0..REMOTE_LEN).map(remote_body).collect());
+            bodies.insert(r, (0..REMOTE_LEN).map(|s| (remote_body(s), remote_prune(s))).collect());
         }
         let remote = build_remote_ops(&ids, &bodies);
         let net: String = (0..32)
@@ -236,14 +240,28 @@ fn one_run(
         match t.stpc {
             "idle" => {
                 if let Some(seq) = t.pubq.front() {
-                    choices.push(("TakePublished", json!({"op": {"a": "me", "tp": "t", "seq": seq, "body": true}})));
+                    choices.push(("TakePublished", json!({"op": {"a": "me", "tp": "t", "seq": seq}})));
                 } else {
                     for r in AUTHORS.iter().skip(1).take(n_remotes) {
+                        // the next operation of the log or one that is still stored
                         let h = t.height(r, "t");
-                        let s = rng.range(0, ((h + 1) as u64).min(REMOTE_LEN as u64 - 1)) as i64;
+                        let mut cands: Vec<i64> = t
+                            .stored
+                            .iter()
+                            .filter(|o| o["a"] == *r && o["tp"] == "t")
+                            .filter_map(|o| o["seq"].as_i64())
+                            .collect();
+                        if ((h + 1) as usize) < REMOTE_LEN {
+                            cands.push(h + 1);
+                            cands.push(h + 1); // the next one twice as likely
+                        }
+                        if cands.is_empty() {
+                            continue;
+                        }
+                        let s = *rng.pick(&cands);
                         choices.push((
                             "TakeImported",
-                            json!({"op": {"a": r, "tp": "t", "seq": s, "body": remote_body(s as usize)}}),
+                            json!({"op": {"a": r, "tp": "t", "seq": s, "body": remote_body(s as usize), "prune": remote_prune(s as usize)}}),
                         ));
                     }
                 }
@@ -277,9 +295,11 @@ fn one_run(
         let cmd_act = if act == "ReleaseProcessed" { "AckRead" } else { act };
         let mut cmd_arg = arg.clone();
         if act == "ForgeBegin" {
-            cmd_arg = json!({"op": {"seq": t.height("me", "t") + 1}});
+            let prune = rng.chance(1, 7);
+            let body = !prune || rng.chance(2, 3);
+            cmd_arg = json!({"op": {"seq": t.height("me", "t") + 1, "prune": prune, "body": body}});
         }
-        let obs = host.as_mut().expect("host").exec(&json!({"act": cmd_act, "arg": cmd_arg}))?;
+        let obs = host.as_mut().expect("host").exec(&json!({"act": cmd_act, "arg": cmd_arg.clone()}))?;
         t.absorb(&obs);
         let name = match act {
             "ReleaseProcessed" => match t.stpc {
@@ -308,6 +328,9 @@ fn one_run(
             }
         }
         let mut arg = arg;
+        if name == "ForgeBegin" {
+            arg = cmd_arg.clone();
+        }
         if name == "AppRecv" {
             arg = json!({"rcv": obs["ev"]});
         }
